@@ -508,6 +508,7 @@ func (e *Engine) mapUpdate(f *frame, st *State, x *ssa.MapUpdate, pos string) {
 	}
 	e.oblige(st, "nil", "", c.Not(c.Eq(m.Terms[0], c.IntLit(0))), pos, "assignment to entry in nil map")
 	e.frameCheckRef(f, st, m.Terms[0], "map", pos)
+	e.ownStore(st, m.Terms[0], Val{Typ: x.Value.Type(), Terms: val.Terms}, pos, "map entry")
 	e.mapSet(st, m, key.Terms[0], val)
 }
 
